@@ -122,10 +122,13 @@ def check_dual(ctx, name, l, reqs, meta):
 def check_truncation(ctx, rng, name, l, chosen, reqs, meta, depth=0):
     rep = lambda what, **kw: ctx.impl_violation(f"{name}: {what}", dict(case=name, op="truncate", lattice=zoo.lat_to_json(l),
                                                                         chosen=None if chosen is None else [int(x) for x in chosen], **kw))
+    lat_fp = core.lattice_fingerprint(l, with_plaquettes=False)
     try:
         t = gu.vertices_to_polygon(l, None if chosen is None else np.asarray(chosen))
     except Exception as ex:
         rep(f"vertices_to_polygon raised {type(ex).__name__}: {ex}"); return None
+    if core.lattice_fingerprint(l, with_plaquettes=False) != lat_fp:
+        rep("vertices_to_polygon modified the lattice it was given (positions / edges / crossings)"); return None
     deg = l.vertices.coordination_numbers
     sel = set(range(l.n_vertices)) if chosen is None else set(int(x) for x in np.atleast_1d(chosen))
     trunc = [v for v in range(l.n_vertices) if v in sel and deg[v] > 2]
